@@ -2153,6 +2153,7 @@ fn c20(a: &ShardArgs) -> Result<(), String> {
             callbacks::information_adapter(a, &mut r);
             callbacks::promise_adapters(a, &mut r);
         }
+        callbacks::builders(a, &mut r, if cfg!(miri) { 6 } else { a.n(150) as usize });
         if !cfg!(miri) {
             callbacks::control_adapter(a, &mut r, a.n(12) as usize);
         }
